@@ -82,6 +82,8 @@ def gen(rs: int, tier: str, index: int) -> dict:
         s["config"]["middlewares"].append(rec_mw)
     rec_mw["hooks"].setdefault("pre_execute", {"async": False})
     rec_mw["hooks"]["pre_send"] = {"async": True, "us": r.choice([0, 1, 50, 500])}
+    s["config"]["middlewares"].append({"hooks": {"on_error": {"async": False}, "post_execute": {"async": r.random() < 0.3, "us": r.choice([0, 10])},
+                                                 "post_save": {"async": False}}})
     for mw in s["config"]["middlewares"]:
         for hs in mw.get("hooks", {}).values():
             hs.pop("replace", None)
@@ -132,6 +134,7 @@ def gen(rs: int, tier: str, index: int) -> dict:
             clients.append({"start_us": r.choice([0, 0, 10, 200]), "ops": ops})
         s["client_ops"] = clients
     s["config"]["mode"] = mode
+    s["config"]["shared_history"] = mode in ("history", "both") and r.random() < 0.4
     if use_retry:
         for m in s["messages"]:
             if m.get("kind", "valid") == "valid":
@@ -144,6 +147,14 @@ async def _client_fn(world: Any, client: Any) -> None:
     other = make_endpoint(world, "client2")
     world.extra["client2"] = other
     task = client.find_task(script["tasks"][0]["name"])
+    if script["config"].get("shared_history"):
+        # a shared task: declared on AsyncSharedBroker, sent through the default broker
+        from sim.worker_world import make_task_func
+        from taskiq.brokers.shared_broker import async_shared_broker
+        ts = dict(script["tasks"][0], name="shared_t")
+        task = async_shared_broker.register_task(make_task_func(world, ts), task_name="shared_t",
+                                                 **{k: dec_label(v) for k, v in (ts.get("labels") or {}).items()})
+        async_shared_broker.default_broker(client)
     world.extra["declared_snapshot"] = enc_labels(dict(task.labels))
 
     async def one_client(spec: dict) -> None:
@@ -211,6 +222,16 @@ def oracle(script: dict, run: Any) -> List[Violation]:
             obs.append(("Context", fe[5]["seen"]["labels"]))
         for e in h.of(d, "save_enter"):
             obs.append(("stored result", e[5]["labels"]))
+        for e in h.of(d, "hook"):
+            if e[5]["hook"] in ("on_error", "post_execute", "post_save"):
+                obs.append((f"{e[5]['hook']} middleware", e[5]["labels"]))
+        want_rt = None if not attempt else ["int", str(sum(1 for a in m["attempts"][:attempt] if a["out"][0] == "exc"))]
+        if want_rt == ["int", "0"]:
+            want_rt = None
+        for where, labels in obs:
+            if labels.get("_retries") != want_rt:
+                out.append(Violation("C09/retry-label-leaked-into-delivery", f"message {k}, {how}: {where} saw _retries={labels.get('_retries')}, this delivery was sent with {want_rt}", k=k))
+                break
         for where, labels in obs:
             got = user(labels)
             if got != want:
@@ -277,7 +298,7 @@ def oracle(script: dict, run: Any) -> List[Violation]:
 def probes(script: dict, run: Any) -> Dict[str, int]:
     h = Hist(run)
     res = {"retry_redelivery": 0, "requeue_redelivery": int(run.fault_counts.get("requeue", 0) > 0), "bytes_label_redelivered": 0,
-           "nonfinite_float_redelivered": 0, "history_run": int(bool(script.get("client_ops"))), "interleaved_sends": 0,
+           "nonfinite_float_redelivered": 0, "history_run": int(bool(script.get("client_ops"))), "shared_task_history": int(bool(script["config"].get("shared_history"))), "interleaved_sends": 0,
            "pickle_serializer": int(script["config"].get("serializer") == "pickle"), "json_formatter": int(script["config"].get("formatter") == "json")}
     for e in h.kind("kick_call"):
         if e[5]["n"] > 0 and e[2] != "client":
